@@ -84,9 +84,28 @@ void apiCase(size_t idx) {
 		R_phase("SetShapePartitions");
 		nif.SetShapePartitions(s, ninf, tp);
 		s = nif.GetShapes().at(0);
+		std::string w2 = what + fmt(" [round %d: %d partitions, assignment mode %d]", round, np, mode);
+		if (round == 0 && idx % 2 == 1 && mode != 3) {
+			// saved right after the assignment, without a rebuild: the writer has to complete the partitions' vertex maps and
+			// triangle lists itself; judged on what concerns triangles (per-vertex weight arrays are the rebuild's job)
+			R_phase("save-without-rebuild");
+			NifFile cp(nif), re;
+			if (loadNif(re, saveNif(cp, true)) != 0) { R_viol("reload", "SetShapePartitions+save", w2 + ": model does not reload when saved right after SetShapePartitions"); return; }
+			for (auto rs : re.GetShapes()) {
+				if (!rs->IsSkinned() || !re.GetHeader().GetBlock<NiSkinInstance>(rs->SkinInstanceRef())) continue;
+				R_eval();
+				auto errs = checkPartitions(re, rs, true, nullptr, false);
+				for (auto& e : errs) {
+					std::string cl = invClass(e);
+					if (cl.find("triangle") == std::string::npos && cl.find("vertex-map") == std::string::npos && cl.find("dismember") == std::string::npos) continue;
+					R_viol("partition-invariant", "SetShapePartitions+save+reload/" + cl, w2 + " saved right after SetShapePartitions (no rebuild) and reloaded: " + e);
+					return;
+				}
+			}
+			R_stat("models_saved_without_rebuild");
+		}
 		R_phase("UpdateSkinPartitions");
 		nif.UpdateSkinPartitions(s);
-		std::string w2 = what + fmt(" [round %d: %d partitions, assignment mode %d]", round, np, mode);
 		if (!checkNow(nif, s, true, w2, "SetShapePartitions+UpdateSkinPartitions")) return;
 		if (round == 1) {
 			R_phase("RemoveEmptyPartitions");
